@@ -2,7 +2,7 @@
    include/a/fuzzy.h and a_fuzzy_equ/a_fuzzy_equ_ of src/fuzzy.c, transcribed statement by statement, polymorphic over
    NumOps.  No proofs here.
 
-   The model is the REPAIRED code (proposed_fixes/C13-1 and C13-2):
+   The model is the code as /repo has it after the fix: commits 4d7bbba and fcf888d (proposed_fixes/C13-1 and C13-2):
      a_mf_lins / a_mf_linz : second test is  x >= b  (was x > b: x = a = b computed 0/0)
      a_mf_tri              : third arm  x == b -> 1  (was: b == c gave 0 at the peak); same shape as a_mf_trap
    The unrepaired bodies are kept as mf_lins_orig / mf_linz_orig / mf_tri_orig for the refutation lemmas. *)
